@@ -22,8 +22,13 @@ from __future__ import annotations
 import ast
 
 from harness.common import TranslateError, ast_digest, src_text
-from translate.c18_guard import ACCESS, PURE_OS, _coq_str, _dotted
+from translate.c18_guard import ACCESS, PURE_OS, _coq_ident, _coq_str, _dotted, wrapper_census
 
+# keyword spelling of the path argument of the OS calls
+PATH_KEYWORDS = {'open': ('file',), 'io.open': ('file',), 'os.open': ('path',), 'os.walk': ('top',), 'os.stat': ('path',),
+                 'os.lstat': ('path',), 'os.listdir': ('path',), 'os.scandir': ('path',), 'os.path.isfile': ('path',),
+                 'os.path.isdir': ('s',), 'os.path.exists': ('path',), 'os.path.lexists': ('path',),
+                 'os.path.getmtime': ('filename',), 'os.path.getsize': ('filename',)}
 STR_PARAMS = {'name', 'folder', 'path', 'filename'}
 OTHER = ('other',)
 HANDLE = ('handle',)
@@ -38,8 +43,13 @@ def S(p: str) -> tuple:
 class _Interp:
     """Abstract interpretation of one method."""
 
-    def __init__(self, cls: str, fn: ast.FunctionDef, chain: bool) -> None:
+    def __init__(self, cls: str, fn: ast.FunctionDef, chain: bool, helpers: dict | None = None,
+                 consts: dict | None = None) -> None:
         self.cls, self.fn, self.chain = cls, fn, chain
+        self.helpers = helpers or {}                           # methods of the same class, inlined at `self.m(...)` calls
+        self.consts = consts or {}                             # module-level NAME = 'string constant'
+        self.stack: list[str] = [fn.name]                      # methods being inlined (recursion fails closed)
+        self.returns: list[list] = []                          # abstract return values of the helper being inlined
         self.sites: list[tuple[str, str, int, str]] = []       # callee, branch, line, pexp
         self.stores: list[tuple[str, str]] = []                # path pexp, data pexp
         self.validated: list[str] = []                         # pexps given to _resolve_path, in order
@@ -61,7 +71,7 @@ class _Interp:
                 env[arg.arg] = frozenset([HANDLE])
             elif 'File' in ann and 'str' in ann:
                 env[arg.arg] = frozenset([S('PArg'), HANDLE])
-            elif arg.arg in STR_PARAMS and ann in ('str', 'StringPath', ''):
+            elif ann in ('str', 'StringPath') or (ann == '' and arg.arg in STR_PARAMS):
                 env[arg.arg] = frozenset([S('PArg')])
             else:
                 env[arg.arg] = frozenset([OTHER])
@@ -72,6 +82,8 @@ class _Interp:
         """Abstract value of an expression (also records access sites / stores found inside it)."""
         d = _dotted(n)
         if isinstance(n, ast.Name):
+            if n.id not in env and n.id in self.consts:
+                return frozenset([S(f'(PLit {_coq_str(self.consts[n.id])})')])
             return env.get(n.id, frozenset([OTHER]))
         if d == 'self.path':
             return frozenset([S('PSelfRoot')])
@@ -97,6 +109,68 @@ class _Interp:
             return frozenset([OTHER])
         self.fail(n, 'unrecognised expression')
 
+    def const_str(self, n: ast.AST, env: dict) -> str | None:
+        """The string a constant expression denotes: a literal, a module-level constant, or a local bound to one."""
+        if isinstance(n, ast.Constant) and isinstance(n.value, str):
+            return n.value
+        if isinstance(n, ast.Name):
+            if n.id in env:
+                v = env[n.id]
+                if len(v) == 1:
+                    (x,) = v
+                    if x[0] == 'str' and x[1].startswith('(PLit ['):
+                        return ''.join(chr(int(c)) for c in x[1][7:x[1].index(']')].split(';') if c)
+                return None
+            return self.consts.get(n.id)
+        d = _dotted(n)
+        if d in ('os.sep', 'os.path.sep'):
+            return '/'
+        return None
+
+    def inline(self, n: ast.Call, fn: ast.FunctionDef, env: dict) -> frozenset:
+        """`self.helper(args)`: interpret the helper's body with the parameters bound to the abstract arguments; OS calls
+        and File stores inside it are recorded for the calling method; the value is the union of what it returns."""
+        if fn.name in self.stack:
+            self.fail(n, f'recursive helper {fn.name}')
+        if len(self.stack) > 4:
+            self.fail(n, 'helpers nested too deeply')
+        a = fn.args
+        if a.vararg or a.kwarg or a.posonlyargs or any(isinstance(x, ast.Starred) for x in n.args) \
+                or any(k.arg is None for k in n.keywords):
+            self.fail(n, f'call of helper {fn.name} with * / ** arguments')
+        if any(isinstance(x, (ast.Yield, ast.YieldFrom)) for x in ast.walk(fn)):
+            self.fail(n, f'helper {fn.name} is a generator')
+        decs = [_dotted(d.func if isinstance(d, ast.Call) else d) for d in fn.decorator_list]
+        params = a.args[(0 if 'staticmethod' in decs else 1):] + a.kwonlyargs
+        names = [p.arg for p in params]
+        inner: dict[str, frozenset] = {}
+        pos_defaults = dict(zip([p.arg for p in a.args][len(a.args) - len(a.defaults):], a.defaults))
+        kw_defaults = {p.arg: dflt for p, dflt in zip(a.kwonlyargs, a.kw_defaults) if dflt is not None}
+        for name, dflt in {**pos_defaults, **kw_defaults}.items():
+            inner[name] = self.ev(dflt, {})
+        npos = len(a.args) - (0 if 'staticmethod' in decs else 1)
+        if len(n.args) > npos:
+            self.fail(n, f'too many positional arguments for helper {fn.name}')
+        for p, arg in zip(names, n.args):
+            inner[p] = self.ev(arg, env)
+        for k in n.keywords:
+            if k.arg not in names:
+                self.fail(n, f'unknown keyword {k.arg} for helper {fn.name}')
+            inner[k.arg] = self.ev(k.value, env)
+        for p in names:
+            if p not in inner:
+                self.fail(n, f'helper {fn.name}: parameter {p} not supplied')
+        self.stack.append(fn.name)
+        self.returns.append([])
+        body = [s for s in fn.body if not (isinstance(s, ast.Expr) and isinstance(s.value, ast.Constant))]
+        self.block(body, inner)
+        rets = self.returns.pop()
+        self.stack.pop()
+        out: frozenset = frozenset()
+        for r in rets:
+            out |= r
+        return out or frozenset([OTHER])
+
     def strs(self, vals: frozenset, node: ast.AST, what: str) -> list[str]:
         out = []
         for v in sorted(vals):
@@ -113,13 +187,21 @@ class _Interp:
         args = n.args
         # --- OS access
         if d in ACCESS:
-            if not args or n.keywords and any(k.arg in ('file', 'path', 'top') for k in n.keywords):
-                self.fail(n, 'file-system call without positional path')
-            vals = self.ev(args[0], env)
-            for a in args[1:]:
+            if any(isinstance(a, ast.Starred) for a in args) or any(k.arg is None for k in n.keywords):
+                self.fail(n, 'file-system call with * / ** arguments')
+            pathkw = [k for k in n.keywords if k.arg in PATH_KEYWORDS.get(d, ())]
+            if args and not pathkw:
+                parg, rest = args[0], args[1:]
+            elif not args and len(pathkw) == 1:
+                parg, rest = pathkw[0].value, []           # open(file=...), os.walk(top=...), os.stat(path=...)
+            else:
+                self.fail(n, 'file-system call whose path argument is not recognised')
+            vals = self.ev(parg, env)
+            for a in rest:
                 self.ev(a, env)
             for k in n.keywords:
-                self.ev(k.value, env)
+                if k not in pathkw:
+                    self.ev(k.value, env)
             for p in self.strs(vals, n, f'path argument of {d}'):
                 self.sites.append((d, 'File' if 'PHandle' in p else ('walk' if 'PWalked' in p else 'str'), n.lineno, p))
             return frozenset([S('PWalked')]) if d == 'os.walk' else frozenset([OTHER])
@@ -149,10 +231,13 @@ class _Interp:
             if any(v[0] == 'str' and 'PWalked' in v[1] for s in vs for v in s):
                 return frozenset([S('PWalked')])
             return frozenset([OTHER])
+        if (not self.chain and isinstance(n.func, ast.Attribute) and isinstance(n.func.value, ast.Name)
+                and n.func.value.id == 'self' and n.func.attr in self.helpers):
+            return self.inline(n, self.helpers[n.func.attr], env)
         if isinstance(n.func, ast.Attribute):
             f = n.func
-            if (f.attr == 'replace' and len(args) == 2 and isinstance(args[0], ast.Constant) and args[0].value == '\\'
-                    and isinstance(args[1], ast.Constant) and args[1].value == '/'):
+            if (f.attr == 'replace' and len(args) == 2 and not n.keywords and self.const_str(args[0], env) == '\\'
+                    and self.const_str(args[1], env) == '/'):
                 base = self.ev(f.value, env)
                 if OTHER in base or HANDLE in base:
                     return frozenset([OTHER])
@@ -252,8 +337,9 @@ class _Interp:
             self.bind(st.target, frozenset([OTHER]), env)
             return env
         if isinstance(st, ast.Return):
-            if st.value is not None:
-                self.ev(st.value, env)
+            v = self.ev(st.value, env) if st.value is not None else frozenset([OTHER])
+            if self.returns:
+                self.returns[-1].append(v)
             return None
         if isinstance(st, ast.Raise):
             if st.exc is not None:
@@ -327,6 +413,11 @@ class _Interp:
             setattr(self, name, list(dict.fromkeys(getattr(self, name))))
 
 
+def _is_called(cls: ast.ClassDef, attr: ast.Attribute) -> bool:
+    """Is this `self.name` node the function of a call?"""
+    return any(isinstance(x, ast.Call) and x.func is attr for x in ast.walk(cls))
+
+
 def _methods(cls: ast.ClassDef):
     return [f for f in cls.body if isinstance(f, (ast.FunctionDef, ast.AsyncFunctionDef))]
 
@@ -338,10 +429,39 @@ def translate() -> tuple[str, dict]:
         if need not in classes:
             raise TranslateError(f'filesys.py: class {need} not found')
     raw_sites, raw_stores, val_stored = [], [], []
+    # module-level string constants (NAME = 'literal', bound once) may be used in place of the literal
+    consts: dict[str, str] = {}
+    bound: dict[str, int] = {}
+    for st in tree.body:
+        for t in (st.targets if isinstance(st, ast.Assign) else [st.target] if isinstance(st, (ast.AnnAssign, ast.AugAssign)) else []):
+            for nm in ast.walk(t):
+                if isinstance(nm, ast.Name):
+                    bound[nm.id] = bound.get(nm.id, 0) + 1
+        if isinstance(st, (ast.Assign, ast.AnnAssign)) and isinstance(st.value, ast.Constant) and isinstance(st.value.value, str):
+            t = st.targets[0] if isinstance(st, ast.Assign) and len(st.targets) == 1 else getattr(st, 'target', None)
+            if isinstance(t, ast.Name):
+                consts[t.id] = st.value.value
+    consts = {k: v for k, v in consts.items() if bound.get(k) == 1}
+    # methods of RawFileSystem called as `self.m(...)` are inlined at the call (helpers extracted from the public methods)
+    raw_methods = {fn.name: fn for fn in _methods(classes['RawFileSystem'])}
+    helpers = {k: v for k, v in raw_methods.items() if k not in ('__init__', '_resolve_path', '__repr__')}
+    inside_raw = {id(x) for x in ast.walk(classes['RawFileSystem'])}
+    used_outside = {x.attr for x in ast.walk(tree) if isinstance(x, ast.Attribute) and id(x) not in inside_raw}
+    called_inside = {x.func.attr for x in ast.walk(classes['RawFileSystem']) if isinstance(x, ast.Call)
+                     and isinstance(x.func, ast.Attribute) and isinstance(x.func.value, ast.Name) and x.func.value.id == 'self'}
+    inherited = {f.name for f in _methods(classes['FileSystem'])}
+    # a private helper (not part of the FileSystem protocol, never mentioned outside the class) whose every use is an
+    # inlined `self.helper(...)` call is analysed at its call sites only
+    private_helpers = {k for k in helpers if k.startswith('_') and not k.startswith('__') and k not in inherited
+                       and k not in used_outside and k in called_inside}
+    for node in ast.walk(classes['RawFileSystem']):          # `self.helper` used other than by calling it: not inlinable
+        if isinstance(node, ast.Attribute) and isinstance(node.value, ast.Name) and node.value.id == 'self' \
+                and node.attr in private_helpers:
+            private_helpers.discard(node.attr) if not _is_called(classes['RawFileSystem'], node) else None
     for fn in _methods(classes['RawFileSystem']):
-        if fn.name in ('__init__', '__repr__', '_resolve_path'):
+        if fn.name in ('__init__', '__repr__', '_resolve_path') or fn.name in private_helpers:
             continue            # __init__/_resolve_path are translated by c18_guard; they contain no OS access
-        it = _Interp('RawFileSystem', fn, chain=False)
+        it = _Interp('RawFileSystem', fn, chain=False, helpers=helpers, consts=consts)
         it.run()
         for callee, branch, line, p in it.sites:
             raw_sites.append((fn.name, callee, branch, p, line))
@@ -371,7 +491,7 @@ def translate() -> tuple[str, dict]:
     for fn in _methods(classes['FileSystemChain']):
         if fn.name in ('__init__', '__repr__', '__eq__', '__hash__', 'add_sys', 'get_system'):
             continue
-        it = _Interp('FileSystemChain', fn, chain=True)
+        it = _Interp('FileSystemChain', fn, chain=True, consts=consts)
         it.run()
         if it.sites:
             other_sites += [('FileSystemChain', fn.name, c, ln) for c, _, ln, _ in it.sites]
@@ -379,6 +499,8 @@ def translate() -> tuple[str, dict]:
         chain_deleg += [(fn.name, m) for m in it.delegations]
     if not chain_calls:
         raise TranslateError('filesys.py: FileSystemChain makes no recognised call into its members')
+
+    wrappers = wrapper_census(tree)
 
     def site(m, c, b, p):
         return f'  {{| st_method := "{m}"; st_callee := "{c}"; st_branch := "{b}"; st_arg := {p} |}}'
@@ -397,6 +519,9 @@ def translate() -> tuple[str, dict]:
         '(* OS-touching calls inside File / FileSystem / FileSystemChain themselves *)',
         'Definition other_sites : list (string * string * string) := [',
         ';\n'.join(f'  ("{c}", "{m}", "{d}")' for c, m, d, _ in other_sites), '].',
+        '(* decorators / rebindings / attribute hooks on methods of File, FileSystem, RawFileSystem, FileSystemChain *)',
+        'Definition method_wrappers : list (string * string * string) := [',
+        ';\n'.join(f'  ("{c}", "{m}", "{_coq_ident(w)}")' for c, m, w in wrappers), '].',
         '(* calls of FileSystemChain into a member system with a string argument *)',
         'Definition chain_calls : list ccall := [',
         ';\n'.join(f'  {{| cc_method := "{m}"; cc_member := "{mm}"; cc_arg := {p} |}}' for m, mm, p in chain_calls), '].',
@@ -404,7 +529,8 @@ def translate() -> tuple[str, dict]:
     ]
     side = {'raw_sites': [list(s) for s in raw_sites], 'raw_stores': [list(s) for s in raw_stores],
             'validated_then_stored': [list(s) for s in val_stored], 'other_sites': [list(s) for s in other_sites],
-            'chain_calls': [list(s) for s in chain_calls], 'chain_handle_delegations': [list(s) for s in chain_deleg],
+            'chain_calls': [list(s) for s in chain_calls], 'method_wrappers': [list(w) for w in wrappers],
+            'inlined_private_helpers': sorted(private_helpers), 'module_string_constants_used': sorted(consts), 'chain_handle_delegations': [list(s) for s in chain_deleg],
             'digest': ast_digest(classes['RawFileSystem'])[:12] + '/' + ast_digest(classes['FileSystemChain'])[:12]}
     return '\n'.join(lines), side
 
